@@ -452,8 +452,14 @@ def rule_dp8(ctx: Ctx) -> RuleResult:
         for p in ctx.fn_paths(m, accfn, cfg=cfg, extra_env={params[0]: seed_t}):
             r.paths += 1
             r.groups.add(("distinct_until_changed", cfg_str(cfg), len(r.groups)))
-            for e in p.trace:
-                if e.k != "decision" or e.test[0] != "cmp" or e.test[1] not in ("Eq", "NotEq"):
+            class _V:       # a comparison computed as a value (the flag returned is the comparison itself)
+                def __init__(self, test, node):
+                    self.test, self.node = test, node
+            tests = [e for e in p.trace if e.k == "decision"]
+            if p.value is not None:
+                tests += [_V(x, accfn) for x in subterms(p.value) if x[0] == "cmp"]
+            for e in tests:
+                if e.test[0] != "cmp" or e.test[1] not in ("Eq", "NotEq"):
                     continue
                 a, b = e.test[2], e.test[3]
                 for user, slot in ((a, b), (b, a)):
@@ -483,11 +489,19 @@ def rule_dp8(ctx: Ctx) -> RuleResult:
                 want_key = ITEM if cfg["key_mapper"] == "None" else None
                 ok = v[2] == ITEM and (key == ITEM if want_key is not None else (key[0] == "ucall" and tuple(key[2]) == (ITEM,)))
                 d = [e for e in p.trace if e.k == "decision" and e.test[0] == "cmp" and e.test[1] in ("Eq", "NotEq") and key in (e.test[2], e.test[3])]
-                ok = ok and len(d) == 1
-                if ok:
-                    changed = d[0].outcome == (d[0].test[1] == "NotEq")
-                    prev = d[0].test[3] if d[0].test[2] == key else d[0].test[2]
-                    ok = v[1] == ("const", changed) and prev[0] == "sub" and prev[1] == ("arg", params[0]) and prev[2] == ("const", 2)
+                flag = v[1]
+                if flag[0] == "call" and flag[1] == ("builtin", "bool") and len(flag[2]) == 1:
+                    flag = flag[2][0]
+                if not d and flag[0] == "cmp" and flag[1] in ("Eq", "NotEq") and key in (flag[2], flag[3]):
+                    # the flag is the comparison itself: (key != previous key, item, key)
+                    prev = flag[3] if flag[2] == key else flag[2]
+                    ok = ok and flag[1] == "NotEq" and prev[0] == "sub" and prev[1] == ("arg", params[0]) and prev[2] == ("const", 2)
+                else:
+                    ok = ok and len(d) == 1
+                    if ok:
+                        changed = d[0].outcome == (d[0].test[1] == "NotEq")
+                        prev = d[0].test[3] if d[0].test[2] == key else d[0].test[2]
+                        ok = v[1] == ("const", changed) and prev[0] == "sub" and prev[1] == ("arg", params[0]) and prev[2] == ("const", 2)
             r.ob(ok, lambda: Finding("DP-8", "%s::distinct_until_changed._distinct{run}" % rel, m.where(accfn),
                                      "the accumulator must return (key != previous key, item, key) with the previous key read from slot 2; it returns %s" % (show(v) if v else None), trace_of(p)))
     r.require_instances(1)
